@@ -237,7 +237,8 @@ def judge_fault(case, o):
 
 # --------------------------------------------------------------------------- C13: what escapes
 WILD = ["5", "-3.5", "1e999", "abc", "\"quoted text\"", "[1, 2]", "[]", "[[1], [2]]", "[a: 1]", "True", "None", "R1", "[R1, R2]", "F1", "Nope", "input.csv", "0",
-        "[1, abc]", "-1", "Float", "\"\"", "inf", "-inf", "nan", "Infinity", "1e-999", "0x10", "1_000"]
+        "[1, abc]", "-1", "Float", "\"\"", "inf", "-inf", "nan", "Infinity", "1e-999", "0x10", "1_000",
+        "\"\u0394 line\\nbreak\"", "\"\u4e2d\\\"\u6587\"", "\"caf\u00e9\\t\""]
 
 
 def confusion_cases(repo, tier="quick", seed=0):
@@ -260,6 +261,23 @@ def confusion_cases(repo, tier="quick", seed=0):
                 src, start, al = model(d, vals)
                 cases.append({"files": {"input.csv": CSV}, "command": d.command_name, "source": src, "label": "confusion", "param": pname, "value": text,
                               "line": al[pname], "cmd_line": start})
+    return cases
+
+
+def v2_confusion_cases():
+    """EEMS 2.0 forms (no result name: it is taken from NewFieldName / InFieldName) with every kind of value where a name is expected"""
+    cases = []
+    forms = [
+        "READ(InFileName = input.csv, InFieldName = %s)",
+        "READ(InFileName = input.csv, InFieldName = a, NewFieldName = %s)",
+        "R1 = EEMSRead(InFileName = input.csv, InFieldName = a)\nCVTTOFUZZY(InFieldName = %s, TrueThreshold = 10, FalseThreshold = 0)",
+        "R1 = EEMSRead(InFileName = input.csv, InFieldName = a)\nSUM(InFieldNames = [R1, R1], NewFieldName = %s)",
+        "R1 = EEMSRead(InFileName = input.csv, InFieldName = a)\nCOPYFIELD(InFieldName = R1, NewFieldName = %s, OutFileName = %s)",
+    ]
+    for f in forms:
+        for text in WILD:
+            src = (f % ((text,) * f.count("%s"))) + "\n"
+            cases.append({"files": {"input.csv": CSV}, "source": src, "label": "v2-confusion", "value": text})
     return cases
 
 
